@@ -30,7 +30,12 @@ package p15
 //     (status TD, heights of the momentums it announced with NewBlockMsg) at most the node's current
 //     height.
 //       - F = fetcher.(*Fetcher).Notify / Enqueue / Filter: the releaser is the fetcher's loop
-//     goroutine (fetcher.(*Fetcher).loop); while it exists the handler is never reported.
+//     goroutine (fetcher.(*Fetcher).loop); while it exists the handler is not reported - unless the loop has
+//     wedged ITSELF: it is parked in a bare channel operation ("chan send" / "chan receive", not a select)
+//     whose innermost non-runtime frame is a function of package protocol/fetcher, with the same stack in
+//     both dumps, while no goroutine other than the loop and handlers parked below handleMsg has any frame
+//     in package protocol/fetcher (the fetcher's channels are private to the package: nobody is left to
+//     take what the loop offers or to offer what it waits for).
 //       - F = protocol.(*ProtocolManager).syncTransactions: releaser protocol.(*ProtocolManager).txsyncLoop.
 //       - any other F: not decided (stays inconclusive).
 //
@@ -182,6 +187,21 @@ func releaserExists(fn string, self int64, all []gdump) (exists bool, decided bo
 		}
 	case strings.HasPrefix(fn, "fetcher.(*Fetcher).Notify") || strings.HasPrefix(fn, "fetcher.(*Fetcher).Enqueue") ||
 		strings.HasPrefix(fn, "fetcher.(*Fetcher).Filter"):
+		if wedged, loopID := fetcherLoopWedged(all); wedged {
+			// the loop cannot release anybody: look for anyone else inside the package
+			for _, d := range all {
+				if d.id == self || d.id == loopID {
+					continue
+				}
+				if _, parked := parkedBelowHandleMsg(d); parked {
+					continue
+				}
+				if hasFrame(d, func(f string) bool { return strings.Contains(f, "protocol/fetcher.") }) {
+					return true, true, fmt.Sprintf("goroutine %d [%s] %s (inside the fetcher while its loop is parked)", d.id, d.state, shortFn(d.frames[0].fn))
+				}
+			}
+			return false, true, ""
+		}
 		isReleaser = func(f string) bool { return strings.Contains(f, "protocol/fetcher.(*Fetcher).loop") }
 	case fn == "protocol.(*ProtocolManager).syncTransactions":
 		isReleaser = func(f string) bool { return strings.Contains(f, "protocol.(*ProtocolManager).txsyncLoop") }
@@ -200,6 +220,36 @@ func releaserExists(fn string, self int64, all []gdump) (exists bool, decided bo
 		}
 	}
 	return false, true, ""
+}
+
+// fetcherLoopWedged: the fetcher's loop goroutine is parked in a bare channel operation inside package fetcher.
+func fetcherLoopWedged(all []gdump) (bool, int64) {
+	for _, d := range all {
+		if !hasFrame(d, func(f string) bool { return strings.Contains(f, "protocol/fetcher.(*Fetcher).loop") }) {
+			continue
+		}
+		if d.state != "chan send" && d.state != "chan receive" {
+			return false, d.id
+		}
+		for _, f := range d.frames {
+			if strings.HasPrefix(f.fn, "runtime.") {
+				continue
+			}
+			return strings.Contains(f.fn, "protocol/fetcher."), d.id
+		}
+		return false, d.id
+	}
+	return false, -1
+}
+
+// fetcherLoopStack: the frames of the fetcher's loop goroutine (part of what must not move between two samples).
+func fetcherLoopStack(all []gdump) string {
+	for _, d := range all {
+		if hasFrame(d, func(f string) bool { return strings.Contains(f, "protocol/fetcher.(*Fetcher).loop") }) {
+			return fmt.Sprint(d.state, d.frames)
+		}
+	}
+	return ""
 }
 
 func sameFrames(a, b []gframe) bool {
@@ -229,6 +279,7 @@ type blockProbe struct {
 	noSync  func() bool // clause 4, second part: no sync cycle can start (evaluated by the session)
 	last    *gdump
 	lastFn  string
+	lastAux string
 	lastAt  time.Time
 	why     string // why the last sample did not qualify (for the inconclusive report)
 	samples int
@@ -267,6 +318,14 @@ func (p *blockProbe) sample() *blockVerdict {
 		return reset(fmt.Sprintf("handler parked in %s [%s], but a connected peer claims more than the node has: the syncer's tick can start a cycle that drains the channel", fn, me.state))
 	}
 	now := time.Now()
+	aux := ""
+	if strings.HasPrefix(fn, "fetcher.") {
+		aux = fetcherLoopStack(all)
+	}
+	if p.last != nil && p.lastAux != aux {
+		p.last = nil // the fetcher's loop moved between the samples
+	}
+	p.lastAux = aux
 	if p.last != nil && p.lastFn == fn && sameFrames(p.last.frames, me.frames) && now.Sub(p.lastAt) >= blockGap {
 		p.samples++
 		var b strings.Builder
